@@ -12,7 +12,7 @@ import KafkaVerif.Lemmas.TransportLife
 import KafkaVerif.Gen.CloseFacts
 import KafkaVerif.Model.FetcherLife
 import KafkaVerif.Lemmas.FetcherLife
-import KafkaVerif.Lemmas.ReaderSystem
+import KafkaVerif.Lemmas.ReaderCloseSystem
 import KafkaVerif.Lemmas.GroupConns
 
 namespace KV.C09
@@ -710,7 +710,7 @@ example : (runC ⟨0, true⟩ {} [.ev (.connectRes none), .copen, .ev (.findRes 
 
 end KV.C09
 
-/-! ## Reader.Close as a system of its components (Model/ReaderSystem.lean) -/
+/-! ## Reader.Close as a system of its components (Model/ReaderCloseSystem.lean) -/
 namespace KV.C09
 open KV
 
@@ -719,24 +719,24 @@ open KV
 system invariant (after the mark every fetcher's context is done, the group is closed and its state reachable), every
 internal step of any component, `closeMsgs` and `closeReturn` strictly lower
 `mu` = Σ fetcher ranks + runMu(group) + pending close steps. -/
-theorem reader_system_close_terminates (c : Group.Cfg) (s s' : ReaderSystem.State) (e : ReaderSystem.Event)
-    (hi : ReaderSystem.Inv c s) (hm : s.close = 2) (he : ReaderSystem.internal e = true)
-    (h : ReaderSystem.step c s e = some s') : ReaderSystem.mu c s' < ReaderSystem.mu c s :=
-  ReaderSystem.mu_decreases c s s' e hi hm he h
+theorem reader_system_close_terminates (c : Group.Cfg) (s s' : ReaderCloseSystem.State) (e : ReaderCloseSystem.Event)
+    (hi : ReaderCloseSystem.Inv c s) (hm : s.close = 2) (he : ReaderCloseSystem.internal e = true)
+    (h : ReaderCloseSystem.step c s e = some s') : ReaderCloseSystem.mu c s' < ReaderCloseSystem.mu c s :=
+  ReaderCloseSystem.mu_decreases c s s' e hi hm he h
 
 /-- the invariant holds initially and is preserved by every step of the system -/
 theorem reader_system_invariant (c : Group.Cfg) (grp : Bool) :
-    ReaderSystem.Inv c { group := if grp then some {} else none } ∧
-    ∀ s s' e, ReaderSystem.Inv c s → ReaderSystem.step c s e = some s' → ReaderSystem.Inv c s' :=
-  ⟨ReaderSystem.inv_init c grp, fun s s' e hi h => ReaderSystem.inv_step c s s' e hi h⟩
+    ReaderCloseSystem.Inv c { group := if grp then some {} else none } ∧
+    ∀ s s' e, ReaderCloseSystem.Inv c s → ReaderCloseSystem.step c s e = some s' → ReaderCloseSystem.Inv c s' :=
+  ⟨ReaderCloseSystem.inv_init c grp, fun s s' e hi h => ReaderCloseSystem.inv_step c s s' e hi h⟩
 
 /-- **reader_system_close_progress** — while Close waits after the mark, a control step of a fetcher, a step of the
 group's `run` goroutine (or the start of a generation's internal function), `closeMsgs` or `closeReturn` is enabled —
 except while `run` is inside `gen.close()` (C15 `close_returns_after_all_exits`). -/
-theorem reader_system_close_progress (c : Group.Cfg) (s : ReaderSystem.State) (hi : ReaderSystem.Inv c s)
+theorem reader_system_close_progress (c : Group.Cfg) (s : ReaderCloseSystem.State) (hi : ReaderCloseSystem.Inv c s)
     (hm : s.close = 2) (hw : ∀ g, s.group = some g → ∀ ret r, g.pc ≠ .waiting ret r) :
-    ∃ e, (ReaderSystem.internal e = true ∨ ∃ gi acc, e = .group (.gStart gi acc)) ∧
-      (ReaderSystem.step c s e).isSome :=
-  ReaderSystem.system_progress c s hi hm hw
+    ∃ e, (ReaderCloseSystem.internal e = true ∨ ∃ gi acc, e = .group (.gStart gi acc)) ∧
+      (ReaderCloseSystem.step c s e).isSome :=
+  ReaderCloseSystem.system_progress c s hi hm hw
 
 end KV.C09
